@@ -110,6 +110,7 @@ type hist[K any] struct {
 	r        *rand.Rand
 	h        fp.Hashable[K] // nil for zero-value histories
 	alt      fp.Hashable[K] // another lawful hasher with the same Eqv (arguments of set operations)
+	altEq    fp.Hashable[K] // a lawful hasher with ANOTHER equivalence (arguments of set operations)
 	hname    string
 	eqv      func(a, b K) bool
 	universe []K
@@ -266,6 +267,25 @@ func (h *hist[K]) checkMap(site string, m fp.Map[K, int], md *model[K], touched 
 			return
 		}
 		w.Add("iterations", 1)
+		// a consumer that knows the size may call Next without asking HasNext each time
+		{
+			seen2 := make([]bool, len(md.es))
+			it2 := m.Iterator()
+			for j := 0; j < len(md.es); j++ {
+				t := it2.Next()
+				i := md.idx(t.I1)
+				if i < 0 || seen2[i] || md.es[i].v != t.I2 {
+					h.fail(site+"/iterator-next-without-hasnext", fmt.Sprintf("draining with Size() calls of Next yields (%v,%v): absent, twice or stale", t.I1, t.I2))
+					return
+				}
+				seen2[i] = true
+			}
+			if it2.HasNext() {
+				h.fail(site+"/iterator-next-without-hasnext", "HasNext still true after Size() calls of Next")
+				return
+			}
+			w.Add("iterations.next_without_hasnext", 1)
+		}
 		// Keys/Values/Foreach/String must not panic and agree in count
 		kc := len(m.Keys().ToSeq())
 		vc := len(m.Values().ToSeq())
@@ -765,6 +785,16 @@ func runSetHistory[K any](h *hist[K], nops int, zero bool) {
 				w.Add("set_ops.argument_built_with_another_hasher", 1)
 				return immutable.Set(h.alt, ks...), om, fmt.Sprintf("Set(other-hasher)%v", ks)
 			}
+			if h.altEq != nil && r.IntN(4) == 0 {
+				// the argument lives under ANOTHER lawful equivalence (coarser or finer): Contains of
+				// the argument decides membership, each set counts Size under its own equivalence
+				om2 := &model[K]{eqv: h.altEq.Eqv}
+				for _, k := range ks {
+					om2.put(k, 1)
+				}
+				w.Add("set_ops.argument_under_another_equivalence", 1)
+				return immutable.Set(h.altEq, ks...), om2, fmt.Sprintf("Set(other-equivalence)%v", ks)
+			}
 			return immutable.Set(h.h, ks...), om, fmt.Sprintf("Set%v", ks)
 		}
 		if r.IntN(40) == 0 {
@@ -862,6 +892,11 @@ func runSetHistory[K any](h *hist[K], nops int, zero bool) {
 			if got != want {
 				h.fail(site, fmt.Sprintf("SubsetOf=%v, reference %v", got, want))
 			}
+			if strings.HasPrefix(od, "Set(other-equivalence)") {
+				// the reverse direction would depend on which representative the argument keeps
+				w.Hit(site)
+				continue
+			}
 			got2 := o.SubsetOf(s)
 			want2 := true
 			for _, e := range om.es {
@@ -948,6 +983,12 @@ func runCase(w *vrt.W, i int) {
 			us = 400
 		}
 		h := &hist[string]{w: w, idx: i, r: r, h: strHashers[hi], hname: strHasherNames[hi], eqv: strHashers[hi].Eqv, universe: strUniverse(us), fullEvery: fullEvery}
+		// only a COARSER equivalence for the argument: then membership of a receiver element in
+		// the argument does not depend on which representative of its class the receiver keeps
+		// (which the property leaves open)
+		if hi == 0 && !zero {
+			h.altEq = strHashers[1]
+		}
 		if zero {
 			h.h, h.hname, h.eqv = nil, "zero-value(==)", func(a, b string) bool { return a == b }
 		}
@@ -976,8 +1017,10 @@ func runCase(w *vrt.W, i int) {
 		}
 		h := &hist[int]{w: w, idx: i, r: r, h: intHashers[hi], hname: intHasherNames[hi], eqv: intEq, universe: uni, fullEvery: fullEvery}
 		h.alt = intHashers[(hi+1+r.IntN(len(intHashers)-1))%len(intHashers)]
+		mod := 2 + r.IntN(7)
+		h.altEq = hasherT[int]{"mod-eqv", func(a, b int) bool { return a%mod == b%mod }, func(k int) uint32 { return uint32(k % mod) }}
 		if zero {
-			h.h, h.hname, h.alt = nil, "zero-value(==)", nil
+			h.h, h.hname, h.alt, h.altEq = nil, "zero-value(==)", nil, nil
 		}
 		w.Begin(i, "history")
 		w.Guard(i, h.witness, func() {
@@ -1034,7 +1077,7 @@ func main() {
 			"zero-value fp.Map/fp.Set histories use ==-comparable keys (the zero value has no hasher)",
 		},
 		Floors: func(tier string) map[string]int64 {
-			return map[string]int64{"nodes.collision": 1, "nodes.hasharray": 1, "trans.bitmap_to_hasharray": 1, "trans.hasharray_to_bitmap": 1, "trans.collision_to_value": 1, "trans.array_to_branch": 1, "walker.runs": 1000, "histories.zero_value": 5, "iterators_held_across_updates_drained": 500, "set_ops.argument_built_with_another_hasher": 200, "hit.Set.self-ops": 50, "hit.Map.Concat(self)": 50}
+			return map[string]int64{"nodes.collision": 1, "nodes.hasharray": 1, "trans.bitmap_to_hasharray": 1, "trans.hasharray_to_bitmap": 1, "trans.collision_to_value": 1, "trans.array_to_branch": 1, "walker.runs": 1000, "histories.zero_value": 5, "iterators_held_across_updates_drained": 500, "set_ops.argument_built_with_another_hasher": 200, "set_ops.argument_under_another_equivalence": 200, "iterations.next_without_hasnext": 1000, "hit.Set.self-ops": 50, "hit.Map.Concat(self)": 50}
 		},
 		Finish: func(tier string, m *vrt.Merged, cov map[string]any) {
 			names := []string{}
